@@ -16,7 +16,7 @@ LEVEL_TEXT = (
     'discards work when closed; the visitor is called for every evaluated job with a path derived '
     'from that job. Does not compute that the visited set equals the reachable set for a given model.')
 
-FLOORS = {'C01-R1': 3, 'C01-R2': 3, 'C01-R3': 12, 'C01-R4': 8, 'C01-R5': 3, 'C01-R6': 12,
+FLOORS = {'C05-R3': 2, 'C05-R4': 2, 'C05-R5': 3, 'C01-R1': 3, 'C01-R2': 3, 'C01-R3': 12, 'C01-R4': 8, 'C01-R5': 3, 'C01-R6': 12,
           'C01-R7': 5, 'C01-R8': 6, 'C01-R9': 3, 'C01-R10': 4, 'C19-R6': 3}
 
 
@@ -672,6 +672,14 @@ def _docs(ctx):
 def run(ctx):
     F = ctx.facts
     coverage_rules(ctx, F)
+    # "exactly those reachable": with several workers the market may close only when nobody holds or can still be
+    # handed work - the accounting of running workers in JobBroker::pop
+    import c05
+    ctx.doc('C05-R3', 'after Condvar::wait every path to return re-tests job_batches.pop()')
+    ctx.doc('C05-R4', 'open_count decremented before the wait and incremented after it on every path')
+    ctx.doc('C05-R5', 'on open_count == 0 the worker notifies all and closes the market before returning')
+    with ctx.rule('C05-R3', 'pop'):
+        c05.r3_r4_r5_pop(ctx, F)
     for strat in EXHAUSTIVE:
         with ctx.rule('C01-R6', strat):
             r6_counters(ctx, F, CB(F, strat))
